@@ -173,20 +173,42 @@ def _c08_compare(hr, stats, got, who) -> None:
 
 
 def oracle_c08_create(hr: dsgen.HistoryRunner, stats) -> None:
+    from pathlib import Path
     from sedpack.io.metadata import Metadata
     before = tree_digest(hr.root)
+    parent, name = os.path.split(hr.root)
+    # the same directory, spelled the ways a caller may spell it
+    spellings = [("absolute str", hr.root), ("absolute Path", Path(hr.root)),
+                 ("relative", name), ("dotted", os.path.join(".", name)),
+                 ("through ..", os.path.join(parent, "elsewhere", "..", name)),
+                 ("tilde", os.path.join("~", name))]
+    saved_cwd, saved_home = os.getcwd(), os.environ.get("HOME")
+    os.chdir(parent)
+    os.environ["HOME"] = parent
     try:
-        hr.sio.Dataset.create(path=hr.root,
-                              metadata=Metadata(description="again"),
-                              dataset_structure=dsgen.make_structure(
-                                  hr.sio, hr.st))
-    except Exception:  # pylint: disable=broad-except
-        pass
-    else:
-        raise Violation("C08", "create_over_existing_not_refused", "")
-    if tree_digest(hr.root) != before:
-        raise Violation("C08", "refused_create_changed_files", "")
-    stats["create_refusals_checked"] += 1
+        for how, path in spellings:
+            try:
+                hr.sio.Dataset.create(path=path,
+                                      metadata=Metadata(description="again"),
+                                      dataset_structure=dsgen.make_structure(
+                                          hr.sio, hr.st))
+            except Exception:  # pylint: disable=broad-except
+                pass
+            else:
+                raise Violation("C08", "create_over_existing_not_refused",
+                                f"path spelled as {how}",
+                                key={"spelling": how})
+            if tree_digest(hr.root) != before:
+                raise Violation("C08", "refused_create_changed_files",
+                                f"path spelled as {how}",
+                                key={"spelling": how})
+            stats["create_refusals_checked"] += 1
+    finally:
+        os.chdir(saved_cwd)
+        if saved_home is None:
+            os.environ.pop("HOME", None)
+        else:
+            os.environ["HOME"] = saved_home
 
 
 def shards_with_ids(hr: dsgen.HistoryRunner):
